@@ -34,10 +34,12 @@ def cbrtPrefix (c : Ctx) (x : Dec) : Option (Sum Out (Cond × Dec)) :=
     let ed : ED := { c := nc }
     match scaleLoop (fun z => z.cmp decOneEighth < 0) decEight 400000 ed ax 0 with
     | none => none
-    | some (ed, z, down) =>
+    | some (.inl er) => some (.inl (failOut er))
+    | some (.inr (ed, z, down)) =>
     match scaleLoop (fun z => z.cmp decOne > 0) decOneEighth 400000 ed z 0 with
     | none => none
-    | some (ed, z, up) =>
+    | some (.inl er) => some (.inl (failOut er))
+    | some (.inr (ed, z, up)) =>
       let z0 := z
       let r1 := ed.step z (fun c => mulOp c z cbrtC1)
       let r2 := r1.1.step r1.2 (fun c => addOp c r1.2 cbrtC2 false)
